@@ -608,11 +608,46 @@ def check_memo_table(facts, run, getter, fld, entries):
     nkeys = 0
     collisions = []
     dom_desc = []
+    # a key component may be a row of the table of faces handed over by reference: rows are identified by their position
+    # (every row carries its position in `id`: decided on generate_origins), provided every caller passes a table row
+    from .origin_common import id_is_position, row_of_table
+    from ..consts import const_py
+    row_params = {}
+    enum_params = set()
+    for i in range(2, ft.fn["arg_count"] + 1):
+        ty = ft.fn["locals"][i]["ty"]
+        if ty.startswith("&") and ty.lstrip("&").strip().endswith("utils::Origin"):
+            okpos, whypos = id_is_position(facts)
+            sites_ok = True
+            nsite = 0
+            for p2, f2 in facts.fns.items():
+                if f2["kind"] not in ("Fn", "AssocFn", "Closure") or p2 in getattr(facts, "spliced_helpers", ()):
+                    continue
+                for c2 in fn_terms(facts, p2).calls():
+                    if c2.callee == getter and len(c2.args) >= i:
+                        nsite += 1
+                        if row_of_table(c2.args[i - 1]) is None:
+                            sites_ok = False
+            nrows = len(const_py(facts, "a5::core::origin::ORIGIN_ORDER") or [])
+            if not (okpos and sites_ok and nsite and nrows):
+                out.append((False, "key-domain", "a key component is a &Origin that is not known to be a row of the face table identified by its position (%s; %d call sites, all rows: %s)" % (whypos, nsite, sites_ok)))
+                return out
+            row_params[i] = nrows
     for (_p, args) in ctxs:
         f = ft.fn
         params = []
         for i in range(2, f["arg_count"] + 1):
             a = args[i - 1]
+            if i in row_params:
+                params.append((i, 0, row_params[i] - 1))
+                continue
+            ty_ = f["locals"][i]["ty"]
+            adt_ = facts.adts.get(facts.crate + "::" + ty_) or facts.adts.get(ty_)
+            if adt_ is not None and adt_["kind"] == "Enum" and all(not v_["fields"] for v_ in adt_["variants"]):
+                # a field-less enum is a small integer: its variant number
+                params.append((i, 0, len(adt_["variants"]) - 1))
+                enum_params.add(i)
+                continue
             if a[0] != "i":
                 params = None
                 break
@@ -630,6 +665,11 @@ def check_memo_table(facts, run, getter, fld, entries):
         slots = {}
         for combo in itertools.product(*[range(lo, hi + 1) for _i, lo, hi in params]):
             env = {("param", i): v for (i, _lo, _hi), v in zip(params, combo)}
+            for (i, _lo, _hi), v in zip(params, combo):
+                if i in row_params:
+                    env[("field", ("deref", ("param", i)), "id")] = v
+                if i in enum_params:
+                    env[("discr", ("param", i))] = v
             assume = assumptions_by_eval(ft, env)
             if rd.block not in feasible_blocks(ft, assume):
                 continue
